@@ -705,7 +705,7 @@ func (l lockedWriter) Write(p []byte) (int, error) {
 
 // startInject starts a store child under strace so that the k-th write(2) on `path` (and only it)
 // fails with EIO.
-func startInject(path string, k int) (*injChild, error) {
+func startInject(path string, k int, logPath string) (*injChild, error) {
 	exe, err := os.Executable()
 	if err != nil {
 		return nil, err
@@ -715,7 +715,7 @@ func startInject(path string, k int) (*injChild, error) {
 		return nil, err
 	}
 	c := &injChild{}
-	c.cmd = exec.Command(st, "-f", "-o", "/dev/null", "-e", "trace=write", "-e", "signal=none",
+	c.cmd = exec.Command(st, "-f", "-o", logPath, "-e", "trace=write", "-e", "signal=none",
 		"-e", fmt.Sprintf("inject=write:error=EIO:when=%d", k), "-P", path, "--", exe, "-storectl-child")
 	c.cmd.Env = append(os.Environ(), "GOMAXPROCS=4")
 	c.cmd.SysProcAttr = &syscall.SysProcAttr{Setpgid: true}
@@ -836,7 +836,9 @@ func (d *driver) sealTransient(c *corpus, p plan, tmpl, base string, init []fsz,
 			if err != nil {
 				rdir = dir
 			}
-			ch, err := startInject(filepath.Join(rdir, base+"._index"), k)
+			logPath := filepath.Join(d.tmp, fmt.Sprintf("inject-%d.log", i))
+			defer os.Remove(logPath)
+			ch, err := startInject(filepath.Join(rdir, base+"._index"), k, logPath)
 			if err != nil {
 				d.harnessError("sealTransient: start: %v", err)
 				return
@@ -852,7 +854,7 @@ func (d *driver) sealTransient(c *corpus, p plan, tmpl, base string, init []fsz,
 				skipped(fmt.Sprintf("open: died=%v err=%v %s", died, err, ch.tail()))
 				return
 			}
-			_, died, err := ch.call(storectl.Req{Op: "seal"}, 240*time.Second)
+			_, died, err := ch.call(storectl.Req{Op: "c08_seal_locked"}, 240*time.Second)
 			if err != nil {
 				skipped(fmt.Sprintf("seal: %v", err))
 				return
@@ -865,6 +867,13 @@ func (d *driver) sealTransient(c *corpus, p plan, tmpl, base string, init []fsz,
 				ch.call(storectl.Req{Op: "exit"}, 30*time.Second)
 			}
 			ch.close()
+			// strace counts per thread: the seal runs on one locked thread; the log says whether the
+			// failure was really injected (if not, the run says nothing)
+			lg, _ := os.ReadFile(logPath)
+			if injected := bytes.Contains(lg, []byte("(INJECTED)")); injected != (k <= p.indexWrites()) {
+				skipped(fmt.Sprintf("injection expected=%v happened=%v", k <= p.indexWrites(), injected))
+				return
+			}
 			o.intact = true
 			for i, s := range suffixes {
 				b, err := os.ReadFile(filepath.Join(dir, base+s))
